@@ -75,6 +75,23 @@ class ClassInfo:
         return f"<class {self.qname}>"
 
 
+def canon_ann(t):
+    """annotation text in the spelling the rules use: X | None -> Optional[X], list[...] -> List[...] (PEP 604 / 585)"""
+    import re as _re
+
+    if t is None:
+        return None
+    t = t.strip()
+    if (t.startswith("'") and t.endswith("'")) or (t.startswith('"') and t.endswith('"')):
+        t = t[1:-1]
+    m = _re.match(r"^(.+?)\s*\|\s*None$", t) or _re.match(r"^None\s*\|\s*(.+)$", t)
+    if m and "|" not in m.group(1):
+        t = f"Optional[{m.group(1).strip()}]"
+    for lo, up in (("list", "List"), ("dict", "Dict"), ("tuple", "Tuple"), ("set", "Set"), ("type", "Type")):
+        t = _re.sub(rf"\b{lo}\[", f"{up}[", t)
+    return t
+
+
 class FuncInfo:
     def __init__(self, mod, node, cls=None, outer=None):
         self.mod = mod
@@ -95,7 +112,7 @@ class FuncInfo:
         self.kwonly = [x.arg for x in a.kwonlyargs]
         self.vararg = a.vararg.arg if a.vararg else None
         self.kwarg = a.kwarg.arg if a.kwarg else None
-        self.annotations = {x.arg: (src(x.annotation) if x.annotation else None) for x in a.posonlyargs + a.args + a.kwonlyargs}
+        self.annotations = {x.arg: (canon_ann(src(x.annotation)) if x.annotation else None) for x in a.posonlyargs + a.args + a.kwonlyargs}
         self.nested = {}  # name -> FuncInfo
         self.is_static = any(d in ("staticmethod",) for d in self.decorators)
         self.is_classmethod = any(d in ("classmethod",) for d in self.decorators)
